@@ -39,8 +39,9 @@ Definition angle_flag_half (g : gate) : bool :=
   match g_par g with Some a => is_clifford_given_half_angle a | None => false end.
 
 (* gate.clifford.  `half` selects the flag of the controlled rotations:
-     true  : _CRn_.clifford tests theta / 2   (tree after repair D; multiples of pi)
-     false : _CRn_.clifford tests theta       (tree before repair D)
+     false : _CRn_.clifford tests theta with the pi/2 test of RX/RY/RZ   (the code as it is)
+     true  : _CRn_.clifford tests theta / 2 (multiples of pi): a repair that was tried and withdrawn,
+             because tests/test_gates_gates.py::test_cun pins `clifford == (theta % (pi/2)).is_integer()`
    the harness probes the tree (CRX(0,1,pi/2).clifford) and uses the matching variant *)
 Definition clifford_at (half : bool) (g : gate) : bool :=
   match g_cls g with
@@ -51,8 +52,8 @@ Definition clifford_at (half : bool) (g : gate) : bool :=
   | cUnitary => g_uflag g
   | cM | cPauliNoise | cOther => false
   end.
-Definition clifford := clifford_at true.
-Definition clifford_v0 := clifford_at false.
+Definition clifford := clifford_at false.
+Definition clifford_half := clifford_at true.
 
 (* gate.controlled_by( *qs ) for a gate that is not yet controlled; None = RuntimeError *)
 Definition generic_controlled (g : gate) (qs : list nat) : gate :=
@@ -83,7 +84,7 @@ Definition controlled_by (g : gate) (qs : list nat) : option gate :=
 Definition passes_acceptance_at (half : bool) (g : gate) : bool :=
   clifford_at half g || match g_cls g with cM | cPauliNoise => true | _ => false end.
 Definition accepted_at (half : bool) (c : list gate) : bool := forallb (passes_acceptance_at half) c.
-Definition accepted := accepted_at true.
+Definition accepted := accepted_at false.
 
 (* engine rules with angle dispatch *)
 Definition m_RX (theta : float) : loc1 := m_RX_branch (rot_branch theta).
@@ -146,7 +147,7 @@ Fixpoint run_gates (gs : list gate) (T : tableau) : outcome :=
 
 Definition execute_circuit_at (half : bool) (n : nat) (c : list gate) : outcome :=
   if accepted_at half c then run_gates c (zero_state n) else Rejected.
-Definition execute_circuit := execute_circuit_at true.
+Definition execute_circuit := execute_circuit_at false.
 
 (* every qubit the gate acts on is handed to the engine (what a sound acceptance needs) *)
 Definition args_cover_qubits (g : gate) : bool :=
